@@ -135,15 +135,27 @@ def methodVal (recv : Option OpKind) (op : CmpOp) (j : J) : VM (Option MethodVal
   match recv with
   | none => raise .nilOp j
   | some k => .ok (some ⟨k, op⟩)
+/-- what Go sees of the outcome of an Operation method when the Stringer calls made so far are `w`: `(bool, error)` and
+the extended log, or a panic (out of a `String()`) carrying the log -/
+def embed (w : List Nat) : OpRes → Except (List Nat) ((Bool × Option GErr) × List Nat)
+  | .ok b c => .ok ((b, none), w ++ c)
+  | .err e c => .ok ((false, some (.op e)), w ++ c)
+  | .panic c => .error (w ++ c)
+
+/-- an implementation of `currentOperation.<OP>(left, right)`: Operation type, operator, operands, calls so far -/
+abbrev OpsImpl := OpKind → CmpOp → Value → ROp → List Nat → Except (List Nat) ((Bool × Option GErr) × List Nat)
+
+/-- the model's Operation table as such an implementation -/
+def modelOps (lower : Bytes → Bytes) : OpsImpl := fun k op l r w => embed w (Rules.apply lower k op l r)
+
 /-- the result of `apply(l, r)` as Go sees it: `(bool, error)`; the Stringer calls are recorded on the way -/
-def callOp (lower : Bytes → Bytes) (f : Option MethodVal) (l : Value) (r : ROp) (j : J) : VM (Bool × Option GErr × J) :=
+def callOp (ops : OpsImpl) (f : Option MethodVal) (l : Value) (r : ROp) (j : J) : VM (Bool × Option GErr × J) :=
   match f with
   | none => raise .nilOp j          -- call of a nil func value
   | some m =>
-  match Rules.apply lower m.recv m.op l r with
-  | .panic c => .error ⟨.stringer, j.calls ++ c, j.debugErr.map clsDbg⟩
-  | .ok b c => .ok (b, none, { j with calls := j.calls ++ c })
-  | .err e c => .ok (false, some (.op e), { j with calls := j.calls ++ c })
+  match ops m.recv m.op l r j.calls with
+  | .error w => .error ⟨.stringer, w, j.debugErr.map clsDbg⟩
+  | .ok ((b, e), w) => .ok (b, e, { j with calls := w })
 
 def newNestedError (inner : Option GErr) (msg : String) : GErr := .nested inner msg []
 def GErr.Set : GErr → List String → GErr
